@@ -127,7 +127,7 @@ func RunC15(c *Ctx) {
 		// record-themed history: a handful of record documents (arrays of objects that repeat one key set, keys
 		// that are easy to confuse, columns whose values repeat) decoded again and again in changing order
 		recordThemed := index%30 == 3
-		recordBase := r.Uint64() % 40000
+		recordBase := workload.NewRand(c.Seed, index+1900000000).Uint64() % 40000 // its own stream: the histories' stream stays what it was
 		inbuf := make([]byte, 1<<16)
 		var prevDoc []byte
 		small := []string{"null", " null ", "{}", "[]", "[1]", `{"a":1}`, `{"a":1,"b":[true]}`, `{"a":1,"b":`, `[1,2,`, `"str"`, "12", `{"a":{"b":[]}}`, `[[],[[]]]`, "nul", ""}
